@@ -831,6 +831,7 @@ func main() {
 	expectCount := map[string]int64{}
 	originCount := map[string]int64{}
 	knownCount := map[string]int64{}
+	oracleCount := map[string]int64{} // disagreements per oracle: perm, once, reported, crash, correspondence(verdict)
 	ncorpus := 0
 	for lo := 0; lo < n; lo += batch {
 		var cases []rescorr.Case
@@ -884,6 +885,7 @@ func main() {
 			}
 			switch {
 			case o.Crashed:
+				oracleCount["crash(whole case)"]++
 				res.AddDisagreement(lib.Disagreement{Kind: "crash", Input: o.Case, Go: o.CrashMsg, SpecVerdict: "violates",
 					What: "goyang crashed or hung: " + firstLine(o.CrashMsg), Replay: o.Case})
 				continue
@@ -943,6 +945,7 @@ func main() {
 					d.Go = map[string]any{"outcome": readable(o.Go.Dump, 120), "findings": texts}
 					d.What = "exactly-once / attribution oracle: " + texts[0]
 				}
+				oracleCount[kind]++
 				res.AddDisagreement(d)
 			}
 			if o.Outside != "" {
@@ -957,6 +960,7 @@ func main() {
 				if flagged {
 					verdict = "violates"
 				}
+				oracleCount["correspondence("+verdict+")"]++
 				res.AddDisagreement(lib.Disagreement{Kind: "correspondence", Input: o.Case, Go: g, Model: m, SpecVerdict: verdict,
 					What: "resolver differs from the model: " + d, Replay: o.Case})
 			}
@@ -1031,6 +1035,9 @@ func main() {
 	}
 	for k, v := range originCount {
 		res.Distribution["applied_target_origin:"+k] = v
+	}
+	for k, v := range oracleCount {
+		res.Distribution["disagreements_by_oracle:"+k] = v
 	}
 	for k, v := range knownCount {
 		res.Distribution["known:"+k] = v
